@@ -13,6 +13,72 @@ CHECKS = {
         note="Trusts vf/sgr.py as the ANSI terminal (ECMA-48/xterm SGR semantics for the supported parameters) and cell equality (bold=False == absent) as 'same formatting'.",
         ref="4/C01",
     ),
+    "C05": dict(
+        technique="Hypothesis round-trip and grammar-based differential test against an independent SGR interpreter, plus enumeration of attribute sets",
+        text="Exploration: round trip from_str(str(f)) over enumerated attribute sets and generated FmtStr values (texts with newlines/controls), and grammar strings (text | ESC[p;..m)* judged per character by an independent SGR interpreter. Sampled, not exhaustive, beyond the single-run attribute space.",
+        note="Trusts vf/sgr.py as the ANSI terminal for the supported SGR parameters; equality is cell equality.",
+        ref="4/C05",
+    ),
+    "C06": dict(
+        technique="Hypothesis property test with per-case complete enumeration of slice bounds against a cell-list reference model",
+        text="Exploration: for every generated FmtStr all (start, stop) pairs and indices in [-len-2, len+2] U {None} are enumerated and compared with Python list semantics on the cell lists; +, *, join likewise.",
+        note="Reference model = Python list slicing/concatenation on per-character cells; IndexError type for out-of-range ints is not asserted.",
+        ref="4/C06",
+    ),
+    "C09": dict(
+        technique="Hypothesis property test with per-case complete enumeration of (start, end) against a list-splice reference model",
+        text="Exploration: for every generated (f, new) pair all 0<=start<=end<=len+2 and end omitted are enumerated; oracle is list splicing on cell lists; f must stay unchanged.",
+        note="Reference model = cells(f)[:s] + cells(new) + cells(f)[e:].",
+        ref="4/C09",
+    ),
+    "C10": dict(
+        technique="complete enumeration of short strings x run layouts x column ranges + Hypothesis, against an independent column model",
+        text="Exploration, exhaustive on strings up to length 4 (quick) / 6 (thorough) over a 5-symbol alphabet (narrow, 2 wide, 2 combining) in all 1-3 run layouts with all column ranges and offsets; Hypothesis for longer ones.",
+        note="Widths from the wcwidth package on an alphabet where it agrees with cwcwidth; zero-width marks on slice edges are not asserted.",
+        ref="4/C10",
+    ),
+    "C11": dict(
+        technique="complete enumeration of short strings x run layouts x column limits + Hypothesis, validity predicate and greedy reference wrap",
+        text="Exploration, exhaustive on strings up to length 5 (quick) / 6 (thorough) over the C10 alphabet in all 1-3 run layouts for columns 2..6; oracle is a validity predicate (widths, fullness, conservation modulo legitimate padding) plus a greedy reference partition.",
+        note="Widths as in C10; placement of zero-width characters across a line break is free; no-run FmtStr outside the quantifier.",
+        ref="4/C11",
+    ),
+    "C13": dict(
+        technique="Hypothesis model-based history test (straight-line programs over a value pool) with snapshot invariants",
+        text="Exploration over generated programs (3-30 operations from the whole public operation set, observations and mutation attempts interleaved); after every step every pool value must equal its entry snapshot and a fresh rebuild.",
+        note="Snapshots are taken on fresh rebuilds from public .chunks data; operations that raise are skipped (not this property's concern).",
+        ref="4/C13",
+    ),
+    "C14": dict(
+        technique="Hypothesis metamorphic test (equivalent spellings) + enumeration of attribute sets and an invalid-specification catalogue against an overwrite model",
+        text="Exploration: 1-3 layers of generated specifications in generated spellings vs a per-character overwrite model and vs a reference spelling; all 5184 truthy attribute sets x spellings; the complete fmtfuncs table; 35 invalid specifications must raise ValueError.",
+        note="Wrong-case names may either work or raise ValueError; copy_with_new_str judged only when all runs carry the same formatting.",
+        ref="4/C14",
+    ),
+    "C15": dict(
+        technique="Hypothesis differential test of a curated method table against str, with range-exact formatting oracle for split pieces",
+        text="Exploration: ~110 method/argument rows per generated FmtStr compared with the str method on .s (text, non-text answer or exception type); pieces of split/splitlines must have exactly the cells of their source range; other text results bounded by shared/union attribute items.",
+        note="split() without separator and empty separator excluded; ljust/rjust padding without fillchar only checked for 'nothing invented' (pinned by the repo's own test).",
+        ref="4/C15",
+    ),
+    "C16": dict(
+        technique="complete enumeration of short strings x layouts x widths + Hypothesis against a greedy reference wrap on cells",
+        text="Exploration, exhaustive on strings up to length 5 (quick) / 6 (thorough) over 6 symbols (2 letters, 4 whitespace kinds) as str / 1-run / all 2-run layouts for 4 widths; Hypothesis for longer texts and more whitespace kinds.",
+        note="Whitespace = str.isspace (checked equal to re \\s on all code points); [] and [''] both accepted for wordless text.",
+        ref="4/C16",
+    ),
+    "C17": dict(
+        technique="complete enumeration of short strings over an escape alphabet + Hypothesis grammar, subsequence/shadow oracle",
+        text="Exploration, exhaustive on all strings up to length 4 (quick) / 5 (thorough) over a 15-symbol escape alphabet; grammar-generated mixes of text, well-formed numeric CSI, truncated and nested sequences; real-world samples.",
+        note="'part of an escape sequence' judged by a conservative scanner (vf/sgr.py:shadow); numeric CSI = ESC[ d+(;d+)* final.",
+        ref="4/C17",
+    ),
+    "C19": dict(
+        technique="Hypothesis near-miss pair generation with coherence oracle; repr checked by AST whitelist and eval round trip",
+        text="Exploration over generated near-miss pairs (same text/different formatting, same display/different runs, empty runs, False attributes, plain str operands) for ==, !=, hash, set and dict behaviour; repr over all attribute sets and generated texts is evaluated in a namespace of only the fmtfuncs names.",
+        note="'same terminal string' uses the library's str(); C01 establishes what str() displays.",
+        ref="4/C19",
+    ),
 }
 
 PENDING_REASON = "check not built yet in this session (work in progress; see DESIGN.md section 4 for the planned generator and oracle)"
